@@ -15,44 +15,46 @@
 (* Everything is exact rational arithmetic (module Rat).  Vectors are      *)
 (* sequences, matrices sequences of rows.                                  *)
 (***************************************************************************)
-EXTENDS Rat, Integers, Sequences, FiniteSets
+EXTENDS Rat, Integers, Sequences, FiniteSets, TLC
 
 (***************************************************************************)
 (* small exact linear algebra                                              *)
 (***************************************************************************)
-VAdd(u, v)   == [i \in 1..Len(u) |-> RAdd(u[i], v[i])]
-VSub(u, v)   == [i \in 1..Len(u) |-> RSub(u[i], v[i])]
-VScale(c, u) == [i \in 1..Len(u) |-> RMul(c, u[i])]
-VAbs(u)      == [i \in 1..Len(u) |-> RAbs(u[i])]
-VZero(n)     == [i \in 1..n |-> "0"]
+\* TLC builds [i \in S |-> e] lazily and would re-evaluate e at every application; Vec / Mat force the
+\* entries once (TLCEval is the identity as far as the meaning is concerned)
+Vec(n, Op(_))       == TLCEval([i \in 1..n |-> Op(i)])
+Mat(n, m, Op(_, _)) == TLCEval([i \in 1..n |-> TLCEval([j \in 1..m |-> Op(i, j)])])
+VAdd(u, v)   == Vec(Len(u), LAMBDA i : RAdd(u[i], v[i]))
+VSub(u, v)   == Vec(Len(u), LAMBDA i : RSub(u[i], v[i]))
+VScale(c, u) == Vec(Len(u), LAMBDA i : RMul(c, u[i]))
+VAbs(u)      == Vec(Len(u), LAMBDA i : RAbs(u[i]))
+VZero(n)     == Vec(n, LAMBDA i : "0")
 MRows(A)     == Len(A)
 MCols(A)     == Len(A[1])
-MMul(A, B)   == [i \in 1..Len(A) |-> [j \in 1..Len(B[1]) |-> RSum([k \in 1..Len(B) |-> RMul(A[i][k], B[k][j])])]]
-MVec(A, v)   == [i \in 1..Len(A) |-> RDot(A[i], v)]
-MAdd(A, B)   == [i \in 1..Len(A) |-> [j \in 1..Len(A[1]) |-> RAdd(A[i][j], B[i][j])]]
-MScale(c, A) == [i \in 1..Len(A) |-> [j \in 1..Len(A[1]) |-> RMul(c, A[i][j])]]
-MAbs(A)      == [i \in 1..Len(A) |-> [j \in 1..Len(A[1]) |-> RAbs(A[i][j])]]
-MT(A)        == [i \in 1..Len(A[1]) |-> [j \in 1..Len(A) |-> A[j][i]]]
-MZero(n)     == [i \in 1..n |-> [j \in 1..n |-> "0"]]
-MId(n)       == [i \in 1..n |-> [j \in 1..n |-> IF i = j THEN "1" ELSE "0"]]
-Outer(u, v)  == [i \in 1..Len(u) |-> [j \in 1..Len(v) |-> RMul(u[i], v[j])]]
+MMul(A, B)   == Mat(Len(A), Len(B[1]), LAMBDA i, j : RSum([k \in 1..Len(B) |-> RMul(A[i][k], B[k][j])]))
+MVec(A, v)   == Vec(Len(A), LAMBDA i : RDot(A[i], v))
+MAdd(A, B)   == Mat(Len(A), Len(A[1]), LAMBDA i, j : RAdd(A[i][j], B[i][j]))
+MScale(c, A) == Mat(Len(A), Len(A[1]), LAMBDA i, j : RMul(c, A[i][j]))
+MAbs(A)      == Mat(Len(A), Len(A[1]), LAMBDA i, j : RAbs(A[i][j]))
+MT(A)        == Mat(Len(A[1]), Len(A), LAMBDA i, j : A[j][i])
+MZero(n)     == Mat(n, n, LAMBDA i, j : "0")
+MId(n)       == Mat(n, n, LAMBDA i, j : IF i = j THEN "1" ELSE "0")
+Outer(u, v)  == Mat(Len(u), Len(v), LAMBDA i, j : RMul(u[i], v[j]))
 MTrace(A)    == RSum([i \in 1..Len(A) |-> A[i][i]])
-MSub(A, idx) == [i \in 1..Len(idx) |-> [j \in 1..Len(idx) |-> A[idx[i]][idx[j]]]]       \* principal sub-matrix
-VSubIdx(v, idx) == [i \in 1..Len(idx) |-> v[idx[i]]]
+MSub(A, idx) == Mat(Len(idx), Len(idx), LAMBDA i, j : A[idx[i]][idx[j]])       \* principal sub-matrix
+VSubIdx(v, idx) == Vec(Len(idx), LAMBDA i : v[idx[i]])
 Quad(u, A, v) == RDot(u, MVec(A, v))                                                    \* u^T A v
 MaxRowSum(A) == LET RECURSIVE go(_, _)
                     go(i, m) == IF i > Len(A) THEN m ELSE go(i + 1, RMax(m, RSum(VAbs(A[i]))))
                 IN go(1, "0")
-Minor(A, r, c) == [i \in 1..(Len(A) - 1) |-> [j \in 1..(Len(A) - 1) |->
-                      A[IF i < r THEN i ELSE i + 1][IF j < c THEN j ELSE j + 1]]]
+Minor(A, r, c) == Mat(Len(A) - 1, Len(A) - 1, LAMBDA i, j : A[IF i < r THEN i ELSE i + 1][IF j < c THEN j ELSE j + 1])
 Sgn(k) == IF k % 2 = 0 THEN "1" ELSE "-1"
 RECURSIVE Det(_)
 Det(A) == IF Len(A) = 1 THEN A[1][1]
           ELSE RSum([j \in 1..Len(A) |-> RMul(Sgn(1 + j), RMul(A[1][j], Det(Minor(A, 1, j))))])
 Invertible(A) == ~RIsZero(Det(A))
 MInv(A) == IF Len(A) = 1 THEN <<<<RDiv("1", A[1][1])>>>>
-           ELSE LET dt == Det(A) IN
-                [i \in 1..Len(A) |-> [j \in 1..Len(A) |-> RDiv(RMul(Sgn(i + j), Det(Minor(A, j, i))), dt)]]
+           ELSE LET dt == Det(A) IN Mat(Len(A), Len(A), LAMBDA i, j : RDiv(RMul(Sgn(i + j), Det(Minor(A, j, i))), dt))
 IsSym(A) == \A i, j \in 1..Len(A) : A[i][j] = A[j][i]
 
 (***************************************************************************)
@@ -66,8 +68,8 @@ IsSym(A) == \A i, j \in 1..Len(A) : A[i][j] = A[j][i]
 Tiny == "1/1000000"
 OneSided(p, eps) == RLt(RMul(p, eps), Tiny) \/ RIsZero(p)
 StepLen(p, eps)  == IF OneSided(p, eps) THEN eps ELSE RMul(eps, p)
-Steps(p, eps)    == [i \in 1..Len(p) |-> StepLen(p[i], eps)]
-Sided(p, eps)    == [i \in 1..Len(p) |-> OneSided(p[i], eps)]
+Steps(p, eps)    == Vec(Len(p), LAMBDA i : StepLen(p[i], eps))
+Sided(p, eps)    == Vec(Len(p), LAMBDA i : OneSided(p[i], eps))
 
 Shift(p, i, d)         == [p EXCEPT ![i] = RAdd(p[i], d)]
 Shift2(p, i, di, j, dj) == Shift(Shift(p, i, di), j, dj)
@@ -86,82 +88,92 @@ HessElem(F(_), p, h, one, i, j) ==
         ELSE RDiv(RAdd(RSub(RSub(F(Shift2(p, i, h[i], j, h[j])), F(Shift(p, i, h[i]))), F(Shift(p, j, h[j]))), F(p)),
                   RMul(h[i], h[j]))
 HessFD(F(_), p, eps) == LET h == Steps(p, eps) one == Sided(p, eps) IN
-    [i \in 1..Len(p) |-> [j \in 1..Len(p) |-> HessElem(F, p, h, one, i, j)]]
+    Mat(Len(p), Len(p), LAMBDA i, j : HessElem(F, p, h, one, i, j))
 GradElem(F(_), p, h, one, i) ==
     IF ~one[i] THEN RDiv(RSub(F(Shift(p, i, h[i])), F(Shift(p, i, RNeg(h[i])))), RMul("2", h[i]))
     ELSE RDiv(RSub(F(Shift(p, i, h[i])), F(p)), h[i])
-GradFD(F(_), p, eps) == LET h == Steps(p, eps) one == Sided(p, eps) IN [i \in 1..Len(p) |-> GradElem(F, p, h, one, i)]
+GradFD(F(_), p, eps) == LET h == Steps(p, eps) one == Sided(p, eps) IN Vec(Len(p), LAMBDA i : GradElem(F, p, h, one, i))
 
 \* the test functions: f(x) = 1/2 x^T Q x + b^T x + c   (Q symmetric)
 QEval(f, x)  == RAdd(RAdd(RHalf(Quad(x, f.Q, x)), RDot(f.b, x)), f.c)
 QGrad(f, x)  == VAdd(MVec(f.Q, x), f.b)
 QIsLinear(f) == \A i, j \in 1..Len(f.Q) : RIsZero(f.Q[i][j])
 \* magnitude of the terms of f over the stencil (scale of the float evaluation error)
-QMag(f, p, h) == LET z == [i \in 1..Len(p) |-> RAdd(RAbs(p[i]), RMul("2", h[i]))] IN
+QMag(f, p, h) == LET z == Vec(Len(p), LAMBDA i : RAdd(RAbs(p[i]), RMul("2", h[i]))) IN
                  RAdd(RAdd(RHalf(Quad(z, MAbs(f.Q), z)), RDot(VAbs(f.b), z)), RAbs(f.c))
 
 (***************************************************************************)
-(* 2. Poisson likelihood with mean linear in the parameters                *)
+(* 2. Poisson likelihood with mean linear (affine) in the parameters       *)
 (*                                                                         *)
-(* md = [B |-> <<B_1..B_k>> (basis vectors over the entries), p |-> <<p_1..p_k>>, *)
-(*       multinom |-> BOOLEAN, live |-> <<BOOLEAN..>> (entry carries likelihood)] *)
-(* mean_i = sum_a p_a B_a[i]; with multinom the parameter vector is        *)
-(* q = p \o <<theta>>, mean_i = theta * sum_a p_a B_a[i] and theta is the  *)
-(* optimal scaling sum(d)/sum(mean) over the live entries.                 *)
+(* md = [B0 |-> fixed component, B |-> <<B_1..B_k>> (basis vectors over    *)
+(*       the entries), p |-> <<p_1..p_k>>, multinom |-> BOOLEAN,           *)
+(*       live |-> <<BOOLEAN..>> (entry carries likelihood)]                *)
+(* lin_i = B0[i] + sum_a p_a B_a[i];  mean_i = lin_i, or with multinom     *)
+(* mean_i = theta * lin_i with parameter vector q = p \o <<theta>> and     *)
+(* theta the optimal scaling sum(d)/sum(lin) over the live entries.        *)
 (* ll(q; d, adj) = sum_live  -adj*mean + d ln(adj*mean) - lnGamma(d+1)     *)
 (***************************************************************************)
 LiveSet(md)   == {i \in 1..Len(md.live) : md.live[i]}
-Lin(md, i)    == RSum([a \in 1..Len(md.p) |-> RMul(md.p[a], md.B[a][i])])
+Lin(md, i)    == RAdd(md.B0[i], RSum([a \in 1..Len(md.p) |-> RMul(md.p[a], md.B[a][i])]))
 ThetaFit(md, d) == RDiv(RSum([i \in LiveSet(md) |-> d[i]]), RSum([i \in LiveSet(md) |-> Lin(md, i)]))
 NPar(md)      == Len(md.p) + (IF md.multinom THEN 1 ELSE 0)
 \* q: the full parameter vector (theta last when multinom)
 ParVec(md, th) == IF md.multinom THEN md.p \o <<th>> ELSE md.p
-Mean(md, th, i) == IF md.multinom THEN RMul(th, Lin(md, i)) ELSE Lin(md, i)
-D1(md, th, a, i) == IF a <= Len(md.p) THEN (IF md.multinom THEN RMul(th, md.B[a][i]) ELSE md.B[a][i]) ELSE Lin(md, i)
-D2(md, a, b, i)  == LET k == Len(md.p) IN
-                    IF md.multinom /\ a = k + 1 /\ b <= k THEN md.B[b][i]
-                    ELSE IF md.multinom /\ b = k + 1 /\ a <= k THEN md.B[a][i] ELSE "0"
-\* gradient of ll with respect to q_a
-ScoreCF(md, th, d, adj, a) ==
-    RSum([i \in LiveSet(md) |-> RMul(RSub(RDiv(d[i], Mean(md, th, i)), adj), D1(md, th, a, i))])
-ScoreVec(md, th, d, adj) == [a \in 1..NPar(md) |-> ScoreCF(md, th, d, adj, a)]
+\* the "design" of the model at (p, theta), computed once: means, first derivatives of the mean, live entries
+Design(md, th) ==
+    LET n == Len(md.live) k == Len(md.p)
+        lin == Vec(n, LAMBDA i : Lin(md, i))
+    IN  [mu   |-> IF md.multinom THEN VScale(th, lin) ELSE lin,
+         d1   |-> Mat(NPar(md), n, LAMBDA a, i : IF a <= k THEN (IF md.multinom THEN RMul(th, md.B[a][i]) ELSE md.B[a][i]) ELSE lin[i]),
+         live |-> LiveSet(md), K |-> NPar(md), k |-> k, multinom |-> md.multinom, B |-> md.B, q |-> ParVec(md, th)]
+\* second derivative of the mean (only theta x p_a is non-zero)
+D2(ds, a, b, i)  == IF ds.multinom /\ a = ds.k + 1 /\ b <= ds.k THEN ds.B[b][i]
+                    ELSE IF ds.multinom /\ b = ds.k + 1 /\ a <= ds.k THEN ds.B[a][i] ELSE "0"
+\* d_i / mu_i over the entries (0 outside the live set)
+Ratio(ds, d) == Vec(Len(ds.mu), LAMBDA i : IF i \in ds.live THEN RDiv(d[i], ds.mu[i]) ELSE "0")
+\* gradient of ll with respect to q
+ScoreVec(ds, d, adj) ==
+    LET rt == Ratio(ds, d) IN Vec(ds.K, LAMBDA a : RSum([i \in ds.live |-> RMul(RSub(rt[i], adj), ds.d1[a][i])]))
 \* observed information: minus the second derivative of ll (adj = 1)
-InfoCF(md, th, d, a, b) ==
-    RSum([i \in LiveSet(md) |->
-            RSub(RMul(RDiv(d[i], RSq(Mean(md, th, i))), RMul(D1(md, th, a, i), D1(md, th, b, i))),
-                 RMul(RSub(RDiv(d[i], Mean(md, th, i)), "1"), D2(md, a, b, i)))])
-InfoMat(md, th, d) == [a \in 1..NPar(md) |-> [b \in 1..NPar(md) |-> InfoCF(md, th, d, a, b)]]
+InfoMat(ds, d) ==
+    LET rt == Ratio(ds, d)
+        w  == Vec(Len(ds.mu), LAMBDA i : IF i \in ds.live THEN RDiv(rt[i], ds.mu[i]) ELSE "0")        \* d / mu^2
+    IN  Mat(ds.K, ds.K, LAMBDA a, b :
+            RSum([i \in ds.live |-> RSub(RMul(w[i], RMul(ds.d1[a][i], ds.d1[b][i])), RMul(RSub(rt[i], "1"), D2(ds, a, b, i)))]))
 \* J = mean over bootstraps of score score^T, cU = mean score
 MeanOf(seq) == LET n == Len(seq) RECURSIVE go(_, _)
                    go(k, acc) == IF k > n THEN acc ELSE go(k + 1, MAdd(acc, seq[k]))
                IN MScale(RDiv("1", RInt(n)), go(2, seq[1]))
-JMat(md, th, boots, adj) == MeanOf([k \in 1..Len(boots) |-> LET g == ScoreVec(md, th, boots[k], adj[k]) IN Outer(g, g)])
-CUVec(md, th, boots, adj) == MeanOf([k \in 1..Len(boots) |-> <<ScoreVec(md, th, boots[k], adj[k])>>])[1]
+JMat(ds, boots, adj) == MeanOf(TLCEval([k \in 1..Len(boots) |-> LET g == ScoreVec(ds, boots[k], adj[k]) IN Outer(g, g)]))
+CUVec(ds, boots, adj) == MeanOf(TLCEval([k \in 1..Len(boots) |-> <<ScoreVec(ds, boots[k], adj[k])>>]))[1]
 GodambeMat(H, J) == MMul(MMul(H, MInv(J)), H)
 
 \* ---- truncation and round-off bounds of the central stencils (all parameters positive, central) ----
 \* positive parts of information and score (every term of the derivative sums, in magnitude)
-InfoPos(md, th, d, a, b) ==
-    RSum([i \in LiveSet(md) |-> RMul(RDiv(d[i], RSq(Mean(md, th, i))), RAbs(RMul(D1(md, th, a, i), D1(md, th, b, i))))])
-ScorePos(md, th, d, a) == RSum([i \in LiveSet(md) |-> RMul(RDiv(d[i], Mean(md, th, i)), RAbs(D1(md, th, a, i)))])
+InfoPos(ds, d) ==
+    LET w == Vec(Len(ds.mu), LAMBDA i : IF i \in ds.live THEN RDiv(d[i], RSq(ds.mu[i])) ELSE "0") IN
+    Mat(ds.K, ds.K, LAMBDA a, b : RSum([i \in ds.live |-> RMul(w[i], RAbs(RMul(ds.d1[a][i], ds.d1[b][i])))]))
+ScorePos(ds, d) ==
+    LET rt == Ratio(ds, d) IN Vec(ds.K, LAMBDA a : RSum([i \in ds.live |-> RMul(rt[i], RAbs(ds.d1[a][i]))]))
 \* rational upper bound of sum |terms of ll|:  |ln x| <= x + 1/x,  |lnGamma(d+1)| <= d + d^2
-LLMagBound(md, th, d, adj) ==
-    RSum([i \in LiveSet(md) |-> LET m == RMul(adj, Mean(md, th, i)) IN
+LLMagBound(ds, d, adj) ==
+    RSum([i \in ds.live |-> LET m == RMul(adj, ds.mu[i]) IN
             RAdd(RAdd(m, RMul(d[i], RAdd(m, RDiv("1", m)))), RAdd(d[i], RSq(d[i])))])
 \* |central second difference - second derivative| <= CH eps^2 InfoPos  (fourth derivative, points within (1 +- eps) q)
 CH(eps) == RDiv("2", RPow(RSub("1", eps), 4))
 \* |central first difference - first derivative|  <= CG eps^2 ScorePos
 CG(eps) == RDiv("1/3", RPow(RSub("1", eps), 3))
-ErrInfo(md, th, d, eps, tauFD) ==
-    LET q == ParVec(md, th) IN
-    [a \in 1..NPar(md) |-> [b \in 1..NPar(md) |->
-        RAdd(RMul(RMul(CH(eps), RSq(eps)), InfoPos(md, th, d, a, b)),
-             RDiv(RMul(tauFD, LLMagBound(md, th, d, "1")), RMul(RMul(eps, q[a]), RMul(eps, q[b]))))]]
-ErrScore(md, th, d, adj, eps, tauFD) ==
-    LET q == ParVec(md, th) IN
-    [a \in 1..NPar(md) |->
-        RAdd(RMul(RMul(CG(eps), RSq(eps)), ScorePos(md, th, d, a)),
-             RDiv(RMul(tauFD, LLMagBound(md, th, d, adj)), RMul(eps, q[a])))]
+ErrInfo(ds, d, eps, tauFD) ==
+    LET c2 == RMul(CH(eps), RSq(eps))
+        ro == RMul(tauFD, LLMagBound(ds, d, "1"))
+        ip == InfoPos(ds, d)
+    IN  Mat(ds.K, ds.K, LAMBDA a, b :
+            RAdd(RMul(c2, ip[a][b]), RDiv(ro, RMul(RMul(eps, ds.q[a]), RMul(eps, ds.q[b])))))
+ErrScore(ds, d, adj, eps, tauFD) ==
+    LET c2 == RMul(CG(eps), RSq(eps))
+        ro == RMul(tauFD, LLMagBound(ds, d, adj))
+        sp == ScorePos(ds, d)
+    IN  Vec(ds.K, LAMBDA a : RAdd(RMul(c2, sp[a]), RDiv(ro, RMul(eps, ds.q[a]))))
 \* propagation (entrywise bounds, E_X >= |X_observed - X|)
 ErrProd(X, EX, Y, EY) == MAdd(MAdd(MMul(EX, MAbs(Y)), MMul(MAbs(X), EY)), MMul(EX, EY))
 \* (X+E)^-1 - X^-1 = -X^-1 E (X+E)^-1 : with rho = ||  |X^-1| E_X ||_inf <= 1/4 the bound 2 |X^-1| E_X |X^-1| holds
